@@ -11,7 +11,8 @@
 // New requests (tools/props/c01att.py):
 //   op <N|Fk|Ck> puba <sess> <content> <noecho> <atts>
 //   op <N|Fk|Ck> getdescp <sess>        {get what=desc}, answered frames rendered in both wire encodings
-// The frames answering these two requests that show a message number carry pbseq=<n>: the number in the
+//   op <N|Fk|Ck> getdatap <sess>        {get what=data} (whole history), likewise
+// The frames answering these requests that show a message number carry pbseq=<n>: the number in the
 // protobuf encoding of the same frame (what a gRPC client reads), next to seq=<n> of the JSON encoding.
 // <atts>: one letter per listed URL: j = a URL that names no file id (foreign directory / no id in the name),
 //         u = a well-formed file URL whose id has no upload record, k = the URL of an uploaded file
@@ -110,7 +111,7 @@ func c01aFrame(sc *vScn, m *ServerComMessage) string {
 // the new requests: same prologue / epilogue as vScn.op
 func c01aOp(sc *vScn, w []string) {
 	flt, kind, a := w[0], w[1], w[2:]
-	if kind != "puba" && kind != "getdescp" {
+	if kind != "puba" && kind != "getdescp" && kind != "getdatap" {
 		sc.op(w)
 		return
 	}
@@ -124,6 +125,8 @@ func c01aOp(sc *vScn, w []string) {
 	var req string
 	if kind == "getdescp" {
 		req = `{"get":{"id":"` + id + `","topic":"` + tn + `","what":"desc"}}`
+	} else if kind == "getdatap" {
+		req = `{"get":{"id":"` + id + `","topic":"` + tn + `","what":"data","data":{}}}`
 	} else {
 		ne := ""
 		if a[2] == "1" {
